@@ -110,7 +110,7 @@ def run_case(ctx, g, rng):
                 bad("compress_or_standardize-is-not-curie-of-parse", got=cs, parse=pa)
             if es != ("ret", want_es):
                 bad("expand_or_standardize-is-not-uri-of-parse", got=es, parse=pa)
-        if repr(cst) != repr(cT) or repr(est) != repr(eT):
+        if probe.okey(cst) != probe.okey(cT) or probe.okey(est) != probe.okey(eT):
             bad("strict-aliases-differ", compress_strict=cst, compress_T=cT, expand_strict=est, expand_T=eT)
         is_u = sp.parse_uri(q) is not None
         is_c = sp.parse_curie(q) is not None
